@@ -1,14 +1,16 @@
 """C13 - multi-source combinators follow their pairing rules (OpsCombine.tla, Binding A).
 
-TLC enumerates tuples of 1..3 (thorough: ..4) source timelines with integer instants - interleaved,
+TLC enumerates tuples of 1..3 (thorough: 1..4) source timelines with integer instants - interleaved,
 simultaneous, empty, erroring, never-ending - for zip, combine_latest, with_latest_from, fork_join and
-amb (growth: take_until, skip_until, zip_with_iterable, sequence_equal(observable); dispose instants),
-executes every tie order in the model, checks the pairing rules as stated by the property against the
-queue/flag transducers (RefOK) plus grammar/release invariants, and exports scenario -> allowed
-observations.  Every scenario is replayed on the real static and operator forms with hot and cold
-logged sources (both creation orders, three instant->time maps) and must produce an allowed
-observation: tuples and their times, terminal kind/time/exception, every source closed by the time
-the result ended, amb's losers closed at the winner's first notification."""
+amb (growth: take_until, skip_until, zip_with_iterable, sequence_equal(observable); dispose at an
+instant or inside on_next; notifications at the subscription instant), executes every tie order in the
+model, checks the pairing rules as worded by the property against the queue/flag transducers (RefOK)
+plus grammar/release invariants, and exports scenario -> allowed observations.  Every scenario is
+replayed on the real static and operator forms with hot and cold logged sources (both creation orders,
+three instant->time maps, TestScheduler and HistoricalScheduler, plain and falsy values, one observable
+passed twice) and must produce an allowed observation: tuples and their times, terminal
+kind/time/exception, every source closed by the time the result ended, amb's losers closed at the
+winner's first notification.  Families are processed end to end (TLC -> replay) and then dropped."""
 from __future__ import annotations
 
 import json
@@ -70,7 +72,7 @@ def _vacuity(need, groups):
 def _family(ck, acc, job, vfn):
     """one family end to end: TLC (model invariants + export, or simulate -> all tie orders), grouping,
     replay on the real code, then only counters survive"""
-    kind, label, c, num, depth, seed = job
+    kind, label, c, num, depth, seed = job[:6]
     if kind == "exhaustive":
         lines = cc.export_runs(ck, [(label, c)], 3000, 1, None, job[6] if len(job) > 6 else 1)
     else:
@@ -109,18 +111,19 @@ def run(tier: str) -> int:
         par = 1
     else:
         sd = ck.seed
-        for o in cc.CORE_OPS:
-            jobs.append((E, o + " n<=2", cc.consts([o], {1, 2}, 3, 4), 0, 0, 0))
+        jobs.append((E, "zip,combine_latest,amb n<=2", cc.consts(["zip", "combine_latest", "amb"], {1, 2}, 3, 3), 0, 0, 0))
+        jobs.append((E, "with_latest_from,fork_join n<=2", cc.consts(["with_latest_from", "fork_join"], {1, 2}, 3, 3), 0, 0, 0))
         jobs.append((E, "core n=3", cc.consts(cc.CORE_OPS, {3}, 2, 2, terms=("C", "U")), 0, 0, 0))
-        jobs.append(("sim", "n=3 len<=3", cc.consts(cc.CORE_OPS, {3}, 3, 4), 3000, 60, sd + 11))
-        jobs.append((E, "growth", cc.consts(G3, {2}, 3, 4), 0, 0, 0))
-        jobs.append(("sim", "n=4 len<=3", cc.consts(cc.CORE_OPS, {4}, 3, 4), 3000, 60, sd + 12))
+        jobs.append(("sim", "n=2 len<=4", cc.consts(cc.CORE_OPS, {2}, 4, 6), 2000, 60, sd + 10))
+        jobs.append(("sim", "n=3 len<=3", cc.consts(cc.CORE_OPS, {3}, 3, 4), 2000, 60, sd + 11))
+        jobs.append((E, "growth", cc.consts(G3, {2}, 3, 3), 0, 0, 0))
+        jobs.append(("sim", "n=4 len<=3", cc.consts(cc.CORE_OPS, {4}, 3, 4), 2000, 60, sd + 12))
         jobs.append((E, "sequence_equal(observable)", cc.consts(["sequence_equal"], {2}, 2, 2, nvals=2, faults=True), 0, 0, 0))
         jobs.append((E, "subscription-instant notifications (cold)", cc.consts(cc.CORE_OPS + G3, {1, 2}, 2, 2, mint=0), 0, 0, 0))
-        jobs.append(("sim", "n=4 len<=3 sparse ties", cc.consts(cc.CORE_OPS, {4}, 3, 8), 2000, 60, sd + 13))
+        jobs.append(("sim", "n=4 len<=3 sparse ties", cc.consts(cc.CORE_OPS, {4}, 3, 8), 1000, 60, sd + 13))
         jobs.append((E, "dispose n=2", cc.consts(cc.CORE_OPS + G3, {2}, 2, 2, disposes=True, dispose_in=2), 0, 0, 0))
         jobs.append((E, "dispose n=3", cc.consts(cc.CORE_OPS, {3}, 1, 2, terms=("C", "U"), disposes=True, dispose_in=1), 0, 0, 0))
-        jobs.append(("sim", "n=4 dispose", cc.consts(cc.CORE_OPS, {4}, 2, 3, disposes=True, dispose_in=2), 1500, 60, sd + 14))
+        jobs.append(("sim", "n=4 dispose", cc.consts(cc.CORE_OPS, {4}, 2, 3, disposes=True, dispose_in=2), 1000, 60, sd + 14))
         par = 3
 
     def vfn(s):
@@ -142,7 +145,10 @@ def run(tier: str) -> int:
     with ThreadPoolExecutor(par) as ex:
         for f in [ex.submit(_family, ck, acc, j, vfn) for j in jobs]:
             f.result()
-    ck.exhaustive = False      # exhaustive for the constants of each run in tlc_runs; 3/4 sources x long timelines are sampled
+    # quick: every family is enumerated exhaustively.  thorough: exhaustive families plus sampled ones
+    # (-simulate draws the scenarios; all tie orders of each drawn scenario are then enumerated)
+    ck.exhaustive = quick
+    ck.note("families", [j[1] + ("" if j[0] == "exhaustive" else f" [sampled: {j[3]} scenarios drawn by -simulate, seed {j[5]}]") for j in jobs])
     ck.note("scenarios", acc.scenarios)
     ck.note("scenarios_with_several_allowed_observations", acc.several)
     ck.note("scenarios_by_operator_arity", dict(sorted(acc.by.items())))
@@ -178,7 +184,7 @@ replay = cc.generic_replay
 
 META = {
     'technique': 'TLC-enumerated tuples of source timelines (all tie orders) of OpsCombine.tla transducers, reference-checked in the model, replayed on the real static and operator forms on TestScheduler/HistoricalScheduler',
-    'level': 'OpsCombine.tla states zip, combine_latest, with_latest_from, fork_join and amb (plus take_until, skip_until, zip_with_iterable, sequence_equal(observable)) twice - queue/flag transducers and the property wording over the cut of consumed notifications - and TLC checks agreement, notification grammar and source release on every tie order of every enumerated tuple of 1-2 (thorough 1-3) timelines exhaustively and of sampled 3-4-source tuples; every scenario with its set of allowed observations is replayed on the real code (static and piped forms, hot/cold sources, both creation orders, dispose instants) and must match on tuples, instants, terminal, exception identity, closure of every source subscription by the end of the result and the unsubscription instant of amb losers.',
-    'note': 'TLC 2026.09; codec of props/combine_common.py; TestScheduler/HistoricalScheduler order (C28); completion instants the statement leaves open are a nondeterministic window in the model',
-    'ref': 'DESIGN.md 6 C13, 2.1 RunN, 3.2, App. C',
+    'level': 'OpsCombine.tla states zip, combine_latest, with_latest_from, fork_join and amb (plus take_until, skip_until, zip_with_iterable, sequence_equal(observable)) twice - queue/flag transducers and the property wording over the cut of consumed notifications - and TLC checks their agreement, the notification grammar and source release after every notification of every tie order of every enumerated scenario: quick = exhaustively all pairs of timelines (<=2 elements, 3 instants, completion/error/never), all triples of <=1-element timelines, and dispose instants / dispose inside on_next; thorough = longer pairs and triples exhaustively plus sampled 2-4-source tuples with all their tie orders. Every scenario with its set of allowed observations is replayed on the real code (static and piped forms, hot/cold sources, both creation orders, falsy values, datetime clock) and must match on tuples, instants, terminal, exception identity, closure of every source subscription by the end of the result and the unsubscription instant of amb losers.',
+    'note': 'TLC 2026.09; codec of props/combine_common.py; TestScheduler/HistoricalScheduler order (C28); completion instants the statement leaves open are a nondeterministic window in the model; thread interleavings are C43, not this check',
+    'ref': 'DESIGN.md 6 C13, 2.1 RunN, 3.2, 3.6, App. C',
 }
